@@ -9,7 +9,7 @@ EXTENDS EvmAttest
 CONSTANTS World,      \* prepared world the behaviours start from (0, 1, 2)
           EKinds,     \* kinds that may be enqueued
           KMax,       \* signatures per message / prefix lengths 0..KMax
-          Corrs, Sts, Ns, Ts,
+          Corrs, Sts, Ns, Rgs, Ts,
           MaxId, MaxTx, MaxRounds, Signers
 VARIABLE ph           \* [r, s, m, v]: round, stage, last (message, validator) that submitted evidence in this round
 \* cfg files cannot hold tuples/functions
@@ -21,13 +21,14 @@ EvidenceMC ==
   \E m \in DOMAIN msgs, v \in Vals :
      /\ ph.s <= 2 /\ (ph.s = 2 => (m > ph.m \/ (m = ph.m /\ v > ph.v)))
      /\ ph' = [ph EXCEPT !.s = 2, !.m = m, !.v = v]
-     /\ \/ Evidence(v, m, "err", m, 1, "none", "ok", 1) /\ "err" \in Ts
-        \/ \E of \in Ofs, k \in 0..KMax, corr \in Corrs, st \in Sts, n \in Ns :
+     /\ \/ Evidence(v, m, "err", m, 1, "none", "ok", 1, 1) /\ "err" \in Ts
+        \/ \E of \in Ofs, k \in 0..KMax, corr \in Corrs, st \in Sts, n \in Ns, rg \in Rgs :
              /\ "tx" \in Ts
              /\ CanBuild(of, k, corr)
              /\ (of \in DOMAIN msgs /\ IsUsc(msgs[of].kind) => k = 1)
              /\ (corr # "none" => k = 1 /\ of = m)        \* one corrupted variant per message is enough for the design
-             /\ Evidence(v, m, "tx", of, k, corr, st, n)
+             /\ (rg # 1 => corr = "none" /\ k = 1 /\ of = m /\ n = 1)   \* a second receipt only for the plain transaction
+             /\ Evidence(v, m, "tx", of, k, corr, st, n, rg)
 NextMC ==
   \/ \E kind \in EKinds : /\ ph.s <= 0 /\ Enqueue(kind)
                            /\ ph' = [ph EXCEPT !.s = 0, !.sk = IF kind = "uscn" /\ CanEnqueue(kind) THEN @ + 1 ELSE @]
